@@ -20,15 +20,15 @@ ASSUMPTIONS = ["the lexer is not modelled: the parser model runs on the real lex
 
 def run(ctx):
     thorough, seed = ctx["thorough"], ctx["seed"]
-    total = {"evaluations": 0, "disagreements": [], "violations": [], "streams": {}, "distribution": {}}
+    total = {"evaluations": 0, "disagreements": [], "violations": [], "streams": {}, "distribution": {}, "distinct_nontrivial": 0}
     for name, rr in (("expr", expr.check(seed, 12000 if thorough else 1500)),
                      ("shellfuzz", shellfuzz.check(seed + 1, 3000 if thorough else 400))):
         total["evaluations"] += rr["evaluations"]
+        total["distinct_nontrivial"] += rr.get("distinct", 0)
         total["disagreements"] += rr["disagreements"]
         total["violations"] += rr["violations"]
         total["streams"][name] = rr["evaluations"]
         total["distribution"][name] = rr.get("distribution", {})
-    total["distinct_nontrivial"] = total["evaluations"]
     total["rule"] = ("expression trees of depth 0..6 over boundary literals, all register spellings, defined/undefined symbols and pc, "
                      "rendered in bases 2/8/10/16 with minimal and redundant parentheses, in three debugger states, plus malformed "
                      "and random strings; command lines = every command/abbreviation x argument pool x 6 debugger states")
